@@ -48,7 +48,7 @@ theorem exec_vpush (el : ExtLaws ext) (h : Sim φ s t) (ok : SizeOk s.heap) (ok'
   have hvec := deref_rel h.heap ok ok' hv
   refine (el.vpush φ _ _ _ _ _ _ h.heap ok ok' hvec h.acc).bind ?_
   intro h1 h1' hh
-  exact .ok ⟨rfl, φ, φ.le_refl, hh, hst1.weaken (by show st1.sp ≤ s.stack.sp; omega), hvec, h.ep, h.ipL, h.ipO, h.bp⟩
+  exact .ok ⟨rfl, φ, φ.le_refl, hh, hst1.weaken (by show st1.sp ≤ s.stack.sp; omega), hv, h.ep, h.ipL, h.ipO, h.bp⟩
 
 /-! ## the tail of `runBuiltin`: `maybe_put` of the result -/
 
